@@ -15,7 +15,7 @@ import (
 var consHolders = []string{"local", "call", "field", "mapval", "sliceel", "closure", "generic", "method", "iface", "param", "ptrfield"}
 var consLoops = []string{"rangeDef", "rangeAsg", "pull", "pullThenRange", "rangeThenPull", "nestedRange", "nestedIter", "zip"}
 var consCtls = []string{"none", "brk", "cont", "ret"}
-var consBodies = []string{"log", "redecl"}
+var consBodies = []string{"log", "redecl", "redecl2", "redeclcap", "redecl2cap", "redecl2ptr"}
 var consWraps = []string{"plain", "ingen", "inclosure"}
 
 var consBase = []string{"local", "rangeDef", "none", "log", "plain"}
@@ -195,8 +195,29 @@ func (p consProg) text(id string) string {
 			w("\t%s", retHere)
 			w("}")
 		}
-		if p.body == "redecl" {
+		switch p.body {
+		case "redecl":
 			w("%s := %s + 1000", v, v)
+		case "redecl2": // multi-name short declaration that re-declares the loop variable
+			w("%s, w2 := %s+1000, 1", v, v)
+			w("_ = w2")
+		case "redeclcap": // a closure captured the loop variable before the body shadows it
+			w("get := func() int { return %s }", v)
+			w("%s := %s + 1000", v, v)
+			w("c.X(13, get())")
+		case "redecl2cap":
+			w("get := func() int { return %s }", v)
+			w("set := func(n int) { %s = n }", v)
+			w("%s, w2 := %s+1000, 1", v, v)
+			w("_ = w2")
+			w("c.X(13, get())")
+			w("set(5)")
+			w("c.X(14, get())")
+		case "redecl2ptr":
+			w("p := &%s", v)
+			w("%s, w2 := %s+1000, 1", v, v)
+			w("_ = w2")
+			w("c.X(13, *p)")
 		}
 		w("c.X(4, %s)", v)
 		if p.wrap == "ingen" && p.holder != "param" {
